@@ -26,7 +26,8 @@ def run(ctx):
     chosen = c01.witnesses(ctx, 30, 300)
     c01.zoo_run(ctx, chosen, [({"VERIF_LOG": "debug", "VERIF_QUIET": "1"}, "zoo, debug logging"),
                               ({"VERIF_LOG": "trace", "VERIF_QUIET": "1"}, "zoo, trace logging"),
-                              ({"GOOM_DEBUG": "1", "VERIF_QUIET": "1"}, "zoo, GOOM_DEBUG=1")])
+                              ({"GOOM_DEBUG": "1", "VERIF_QUIET": "1"}, "zoo, GOOM_DEBUG=1"),
+                              ({"VERIF_LOG": "debug-then-off", "VERIF_QUIET": "1"}, "zoo, debug open at apply time and closed before the calls")])
     ctx.cov["rule"] = ("the behaviours of the lifecycle family (all histories of the stub alphabet to depth 3 + random "
                        "length-12 histories with OpenDebug/CloseDebug/OpenTrace/CloseTrace interleaved by TLC) replayed under "
                        "4 logging configurations x 4 handle kinds; the oracle (required call results, image) has no logging "
